@@ -42,12 +42,20 @@ def gen_case(rng: random.Random) -> dict[str, Any]:
             step["cancelNow"] = True
             if rng.random() < 0.6:
                 script.append({"at": at + 0.25, "op": "wait", "h": h})
-        if step["via"] == "task" and step["from"] == "owner" and rng.random() < 0.3:
+        if step["via"] == "task" and step["from"] == "owner" and rng.random() < 0.45:
             sp = next(s for s in specs if s["h"] == h)
             if "forever" in sp["beh"] or (sp["beh"]["ends"] >= 1 and sp["beh"]["exc"] is None):
                 sp["startDelay"] = 0.6          # takes task_status, calls started() 0.6 ticks after it began
+                r2 = rng.random()
+                if r2 < 0.3 and not sp["children"] and "excOnCancel" not in sp["beh"]:
+                    sp["startFails"] = rng.randrange(3)     # … or rather fails at that point, before started()
+                    sp["beh"] = {"ends": 1, "exc": None}
+                elif r2 < 0.6 and not sp["children"] and "excOnCancel" not in sp["beh"]:
+                    sp["abandonAt"] = 0.3                   # … but its caller gives up after 0.3 ticks
         script.append(step)
     for s in specs:
+        if "startFails" in s or "abandonAt" in s:
+            continue        # (no handle is ever returned for these)
         if "forever" in s["beh"] or rng.random() < 0.15:
             # cancelled through the handle (always, for tasks that never end by themselves)
             script.append({"at": rng.randint(0, exit_at - 1) + 0.25, "op": "cancel", "h": s["h"]})
@@ -60,7 +68,7 @@ def gen_case(rng: random.Random) -> dict[str, Any]:
         script.append({"at": rng.randint(0, exit_at - 1) + 0.1, "op": "res", "v": 77})
     # forever tasks spawned by other tasks may begin after their cancel: make sure a late cancel exists
     for s in specs:
-        if "forever" in s["beh"]:
+        if "forever" in s["beh"] and "abandonAt" not in s:
             script.append({"at": exit_at - 0.05, "op": "cancel", "h": s["h"]})
     script.sort(key=lambda x: x["at"])
     return {"kind": "factory", "handler": rng.choice([None, True, False]), "handler_obj": rng.choice([None, None, "truthy", "falsy"]),
@@ -114,8 +122,10 @@ class C09(Prop):
         labels = [e["l"] for e in tr]
         crashed = []
         handler = case["handler"]
+        start_fails = {s["h"] for s in case["specs"] if s.get("startFails") is not None}
         for e in tr:
-            if e["l"][0] == "taskEnded" and e["l"][2] is not None and not handler:
+            # (the exception of a task that fails before started() goes to the caller of start_task())
+            if e["l"][0] == "taskEnded" and e["l"][2] is not None and not handler and e["l"][1] not in start_fails:
                 crashed.append(e["l"][2])
         out = next((l[1] for l in labels if l[0] == "outcome"), None)
         if impl["hang"]:
@@ -164,6 +174,8 @@ class C09(Prop):
         for h in spawn_t:
             spec = next(s for s in case["specs"] if s["h"] == h)
             exc = spec["beh"].get("exc")
+            if spec.get("startFails") is not None:
+                exc = spec["startFails"]
             if exc is None:
                 exc = spec["beh"].get("excOnCancel")      # raised by the task's clean-up after a cancel through its handle
             calls = sum(1 for l in labels if l[0] == "handlerCalled" and l[1] == h)
